@@ -265,6 +265,15 @@ func c03ContentOracle(c *c03MatchCase, eb, ea []discovery.Entry, rep *runReport)
 	}
 }
 
+func strataNote(hi *history, s string) {
+	for _, x := range hi.Strata {
+		if x == s {
+			return
+		}
+	}
+	hi.Strata = append(hi.Strata, s)
+}
+
 // ---------------------------------------------------------------------------------------------
 // L3 oracle: the generator's rule-level truth
 
@@ -283,10 +292,12 @@ type c03E2E struct {
 	GitLog   string      `json:"git_log"`
 	Result   ciResult    `json:"pint_ci"`
 	Expected []c03Expect `json:"expected"`
+	// HEAD path -> fork path whose version is the base of the comparison, after asking git's log which renames it saw
+	Origin map[string]string `json:"effective_origin"`
 }
 
 // truth computes, for every (unbroken) rule at HEAD, the set of marker states the property allows.
-func c03Truth(hi *history, gitLog string) []c03Expect {
+func c03Truth(hi *history, gitLog string) ([]c03Expect, map[string]string) {
 	// rename+edit commits: git decides by similarity whether it is a rename; use its answer for those only
 	confirmed := func(from, to string) bool {
 		for _, l := range strings.Split(gitLog, "\n") {
@@ -301,13 +312,22 @@ func c03Truth(hi *history, gitLog string) []c03Expect {
 	for k, v := range hi.Origin {
 		origin[k] = v
 	}
-	for _, re := range hi.RenEdits {
+	for ri, re := range hi.RenEdits {
 		if !confirmed(re[0], re[1]) {
-			// git saw delete + add: every later name of this file has no base version
+			// git saw delete + add: every later name of this file has no base version -- unless the add landed on a fork path that
+			// was deleted earlier on the branch: then the path existed at the fork point and that version is the base (same as a
+			// file deleted and re-added at its path)
+			base := ""
+			if ri < len(hi.RenOnto) && hi.RenOnto[ri] {
+				if _, ok := hi.Fork[re[1]]; ok {
+					base = re[1]
+					strataNote(hi, "unconfirmed-rename-onto-deleted-path=readd")
+				}
+			}
 			cur := re[1]
 			for {
 				if _, ok := origin[cur]; ok {
-					origin[cur] = ""
+					origin[cur] = base
 					break
 				}
 				next := ""
@@ -394,7 +414,7 @@ func c03Truth(hi *history, gitLog string) []c03Expect {
 			out = append(out, e)
 		}
 	}
-	return out
+	return out, origin
 }
 
 func c03CheckE2E(c *c03E2E, rep *runReport) {
@@ -437,7 +457,7 @@ func c03CheckE2E(c *c03E2E, rep *runReport) {
 	// duplicated content: at most nb copies may be reported as kept
 	for _, p := range sortedKeys(c.History.Head) {
 		hf := c.History.Head[p]
-		o := c.History.Origin[p]
+		o := c.Origin[p]
 		if o == "" {
 			continue
 		}
@@ -479,7 +499,7 @@ func c03BuildE2E(c *c03E2E, base string) {
 	buildRepo(dir, c.History, markerConfig())
 	c.GitLog = git(dir, "log", "--reverse", "--no-merges", "--first-parent", "--format=%H", "--name-status", "main..HEAD")
 	c.Result = runCI(dir)
-	c.Expected = c03Truth(c.History, c.GitLog)
+	c.Expected, c.Origin = c03Truth(c.History, c.GitLog)
 }
 
 // ---------------------------------------------------------------------------------------------
@@ -563,6 +583,12 @@ func runC03(args []string) int {
 		if term, ok, broken := findCaseCoq(res); ok {
 			cw.add(fmt.Sprintf("FindCase %s %s", coqN(300000+i), term))
 			rep.hist("L3:find-cases")
+			if res.GlobDup == 0 {
+				rep.hist("hyp:glob-positions-unique-holds")
+			} else {
+				rep.hist("hyp:glob-positions-unique-fails")
+				rep.Notes = append(rep.Notes, fmt.Sprintf("history %d: %d valid glob entries share path and rule position with an earlier one", c.ID, res.GlobDup))
+			}
 			if res.Uncovered == 0 {
 				rep.hist("hyp:glob-covers-head-entries-holds")
 			} else {
